@@ -106,6 +106,39 @@ func generateGrid(family string, n int, r *rng, p func(string, ...any)) bool {
 				p("enc s1 S1(H(-;{%s};-;{%s});00;01)", iv, piv)
 			}
 		}
+		// … in every structure kind that has a header layer, also when one bucket is emitted from
+		// retained raw bytes (a decoded message whose other bucket was edited)
+		{
+			iv, piv := "i64:5=b:01", "i64:6=b:02"
+			rawPiv := hexs(wBstr(wMap(wInt(5), wBstr([]byte{1})).enc()).enc())
+			rawPpiv := hexs(wBstr(wMap(wInt(6), wBstr([]byte{2})).enc()).enc())
+			rawUiv := hexs(wMap(wInt(5), wBstr([]byte{1})).enc())
+			rawUpiv := hexs(wMap(wInt(6), wBstr([]byte{2})).enc())
+			hs := []string{
+				"H(-;{" + iv + "};-;{" + piv + "})", "H(-;{" + piv + "};-;{" + iv + "})",
+				"H(" + rawPiv + ";{" + iv + "};-;{" + piv + "})", "H(" + rawPpiv + ";{" + piv + "};-;{" + iv + "})",
+				"H(-;{" + iv + "};" + rawUpiv + ";{" + piv + "})", "H(-;{" + piv + "};" + rawUiv + ";{" + iv + "})",
+				"H(" + rawPiv + ";{" + iv + "};" + rawUpiv + ";{" + piv + "})",
+				"H(-;{" + iv + "};-;{})", "H(-;{};-;{" + piv + "})", "H(-;{" + iv + "," + piv + "};-;{})", "H(-;{};-;{" + iv + "," + piv + "})",
+			}
+			ok := "H(-;{i64:1=a:-7};-;{})"
+			for _, h := range hs {
+				p("enc s1 S1(%s;00;01)", h)
+				p("enc s1u S1(%s;00;01)", h)
+				p("enc sm SM(%s;00;[cs(%s;01)])", h, ok)
+				p("enc sm SM(%s;00;[cs(%s;01)])", ok, h)
+				p("enc sm SM(%s;00;[cs(%s;01),cs(%s;01)])", ok, ok, h)
+				p("enc sig cs(%s;01)", h)
+				p("enc csig cs(%s;01)", h)
+				p("enc uh {i64:7=cs(%s;01)}", h)
+				p("enc uh {i64:11=csl[cs(%s;01),cs(%s;01)]}", ok, h)
+			}
+			// unset (nil) signature slots never encode
+			p("enc sm SM(%s;00;[csn])", ok)
+			p("enc sm SM(%s;00;[cs(%s;01),csn])", ok, ok)
+			p("enc sm SM(%s;00;[csn,cs(%s;01)])", ok, ok)
+			p("enc sm SM(%s;00;[cs(%s;01),csn,cs(%s;01)])", ok, ok, ok)
+		}
 		ivw, pivw := []*W{wInt(5), wBstr([]byte{1})}, []*W{wInt(6), wBstr([]byte{2})}
 		for _, c := range [][2][]*W{{ivw, pivw}, {pivw, ivw}, {append(ivw, pivw...), nil}, {nil, append(ivw, pivw...)}, {ivw, ivw}, {ivw, nil}, {nil, pivw}} {
 			prot := wBstr(wMap(c[0]...).enc())
@@ -370,6 +403,24 @@ func genSignGrid(r *rng, nmax int, p func(string, ...any)) {
 		return fmt.Sprintf("H(-;{i64:1=a:%d};-;{})", []int{-7, -35, -36, -8, -37, -38}[i%6])
 	}
 	algk := func(i int) int { return []int{-7, -35, -36, -8, -37, -38}[i%6] }
+	// zero signatures, an empty signature or an unset slot at any position never encode
+	for n := 1; n <= 4; n++ {
+		for bad := 0; bad < n; bad++ {
+			for _, what := range []string{"csn", "cs(" + hdk(0) + ";-)", "cs(" + hdk(0) + ";_)"} {
+				slots := []string{}
+				for i := 0; i < n; i++ {
+					if i == bad {
+						slots = append(slots, what)
+					} else {
+						slots = append(slots, "cs("+hdk(i)+";0"+fmt.Sprint(i+1)+")")
+					}
+				}
+				p("enc sm SM(H(-;{};-;{});0102;[%s])", strings.Join(slots, ","))
+			}
+		}
+	}
+	p("enc sm SM(H(-;{};-;{});0102;[])")
+	p("enc sm SM(H(-;{};-;{});0102;-)")
 	for n := 0; n <= 6; n++ {
 		sigs, ss := []string{}, []string{}
 		for i := 0; i < n; i++ {
@@ -569,7 +620,32 @@ func contentOfLen(target int) ([]byte, bool) {
 
 // C02 / C03 / C07 / C09 / C10: every length-prefix boundary of a protected bucket × every head
 // width a peer may use for it, in every structure that signs protected bytes.
+// tagged values inside the PROTECTED bucket are conforming (the documented limit excludes tags
+// from the envelope and from unprotected values only): such messages are accepted and verify
+func genTagGrid(p func(string, ...any)) {
+	payload := []byte{0x50}
+	vals := []*W{
+		wTag(1, wInt(1700000000)), wTag(0, wTstr("2013-03-21T20:04:00Z")), wTag(2, wBstr([]byte{1, 0, 0, 0, 0, 0, 0, 0, 0})),
+		wTag(3, wBstr([]byte{1})), wTag(32, wTstr("https://example.com/")), wTag(37, wBstr(make([]byte, 16))),
+		wTag(100, wInt(5)), wTag(55799, wInt(5)), wTag(1000, wArr(wInt(1), wTstr("x"))), wTag(100, wTag(101, wBstr([]byte{7}))),
+		wArr(wTag(1, wInt(1)), wInt(2)), wMap(wInt(1), wTag(32, wTstr("urn:x"))),
+	}
+	for _, v := range vals {
+		for _, lbl := range []int64{-70001, 15, 99} {
+			content := wMap(wInt(1), wInt(-7), wInt(lbl), v).enc()
+			sig := tsig(1, refTBS1(content, []byte{}, payload))
+			msg := wArr(wBstr(content), wMap(), wBstr(payload), wBstr(sig))
+			p("v1 t %s - T:-7:1 - !wf", hexs(wTag(18, msg).enc()))
+			p("v1 u %s - T:-7:1 - !wf", hexs(msg.enc()))
+			// the same value in the unprotected bucket is outside the documented limits: refused
+			um := wArr(wBstr(wMap(wInt(1), wInt(-7)).enc()), wMap(wInt(lbl), v), wBstr(payload), wBstr(sig))
+			p("dec s1 %s", hexs(wTag(18, um).enc()))
+		}
+	}
+}
+
 func genTbsGrid(p func(string, ...any)) {
+	genTagGrid(p)
 	targets := []int{0, 1, 22, 23, 24, 25, 254, 255, 256, 257, 65535, 65536}
 	widths := []int{-1, 1, 2, 4, 8}
 	payload := []byte{0x50}
